@@ -63,7 +63,7 @@ def parse_summary(content):
 
     merged = pipe(
         entries,
-        curry(groupby, curry(get, "section")),
+        curry(groupby, lambda entry: entry["section"].lower()),
         curry(
             valmap,
             compose_left(curry(map, lambda x: {x["keyword"]: x["value"]}), merge),
